@@ -4,37 +4,57 @@ Helper lemmas for C01 / C02 / C14 (calendar arithmetic). STATEMENTS BELOW ARE TH
 -/
 import TzVerif.Model.DateTime
 import TzVerif.Spec.Calendar
+import TzVerif.Proofs.CalBasic
+import TzVerif.Proofs.CalMono
+import TzVerif.Proofs.CalFrom
 
 namespace TzVerif.Proofs
 open TzVerif.Model TzVerif.Gen
 
 theorem daysSinceUnixEpoch_eq (y m d : Int) (hm : 1 ≤ m ∧ m ≤ 12) :
     daysSinceUnixEpoch y m d = Spec.dayNumber y m d := by
-  sorry
+  exact daysSinceUnixEpoch_eq' y m d hm
 
 theorem unixTime_eq_seconds (y m d h mi s : Int) (hm : 1 ≤ m ∧ m ≤ 12) :
     unixTime y m d h mi s = Spec.seconds y m d h mi s := by
-  sorry
+  exact unixTime_eq_seconds' y m d h mi s hm
 
 theorem unixTime_leap_second (y m d h mi : Int) (hm : 1 ≤ m ∧ m ≤ 12) :
     unixTime y m d h mi 60 = unixTime y m d h (mi + 1) 0 ∧
     unixTime y m d 23 59 60 = 86400 * (Spec.dayNumber y m d + 1) := by
-  sorry
+  rw [unixTime_eq_seconds' y m d h mi 60 hm, unixTime_eq_seconds' y m d h (mi + 1) 0 hm,
+    unixTime_eq_seconds' y m d 23 59 60 hm]
+  unfold Spec.seconds
+  generalize Spec.dayNumber y m d = n
+  omega
 
 theorem fromTimespec_fields (t ns : Int) (c : UtcDateTime) (h : UtcDateTime.fromTimespec t ns = .ok c) :
     Spec.ValidDate c.year c.month c.monthDay ∧
     0 ≤ c.hour ∧ c.hour ≤ 23 ∧ 0 ≤ c.minute ∧ c.minute ≤ 59 ∧ 0 ≤ c.second ∧ c.second ≤ 59 ∧
     Spec.seconds c.year c.month c.monthDay c.hour c.minute c.second = t ∧
     c.nanoseconds = ns ∧ i32Min ≤ c.year ∧ c.year ≤ i32Max := by
-  sorry
+  rcases fromTimespec_cases t ns with ⟨_, _, y, m, d, hv, hdn, hy1, hy2, heq⟩ | ⟨_, heq⟩
+  · rw [heq] at h
+    cases h
+    dsimp only
+    refine ⟨hv, by omega, by omega, by omega, by omega, by omega, by omega, ?_, rfl, hy1, hy2⟩
+    unfold Spec.seconds
+    rw [hdn]; omega
+  · rw [heq] at h; cases h
 
 theorem fromTimespec_accepted_iff (t ns : Int) :
     (∃ c, UtcDateTime.fromTimespec t ns = .ok c) ↔ (MIN_UNIX_TIME ≤ t ∧ t ≤ MAX_UNIX_TIME) := by
-  sorry
+  rcases fromTimespec_cases t ns with ⟨h1, h2, y, m, d, _, _, _, _, heq⟩ | ⟨hn, heq⟩
+  · exact ⟨fun _ => ⟨h1, h2⟩, fun _ => ⟨_, heq⟩⟩
+  · constructor
+    · rintro ⟨c, hc⟩; rw [heq] at hc; cases hc
+    · intro hc; exact absurd hc hn
 
 theorem fromTimespec_refused (t ns : Int) (h : ¬ (MIN_UNIX_TIME ≤ t ∧ t ≤ MAX_UNIX_TIME)) :
     UtcDateTime.fromTimespec t ns = .error .outOfRange := by
-  sorry
+  rcases fromTimespec_cases t ns with ⟨h1, h2, _⟩ | ⟨_, heq⟩
+  · exact absurd ⟨h1, h2⟩ h
+  · exact heq
 
 theorem seconds_injective (y m d h mi s y' m' d' h' mi' s' : Int)
     (hd : Spec.ValidDate y m d) (hd' : Spec.ValidDate y' m' d')
@@ -42,17 +62,38 @@ theorem seconds_injective (y m d h mi s y' m' d' h' mi' s' : Int)
     (ht' : 0 ≤ h' ∧ h' ≤ 23 ∧ 0 ≤ mi' ∧ mi' ≤ 59 ∧ 0 ≤ s' ∧ s' ≤ 59)
     (e : Spec.seconds y m d h mi s = Spec.seconds y' m' d' h' mi' s') :
     y = y' ∧ m = m' ∧ d = d' ∧ h = h' ∧ mi = mi' ∧ s = s' := by
-  sorry
+  unfold Spec.seconds at e
+  have hn : Spec.dayNumber y m d = Spec.dayNumber y' m' d' := by omega
+  obtain ⟨e1, e2, e3⟩ := dayNumber_injective y m d y' m' d' hd hd' hn
+  rw [hn] at e
+  refine ⟨e1, e2, e3, by omega, by omega, by omega⟩
 
 theorem fromTimespec_weekDay (t ns : Int) (c : UtcDateTime) (h : UtcDateTime.fromTimespec t ns = .ok c) :
     weekDay c.year c.month c.monthDay = Spec.weekdayOfDay (t / 86400) ∧
     0 ≤ weekDay c.year c.month c.monthDay ∧ weekDay c.year c.month c.monthDay ≤ 6 := by
-  sorry
+  obtain ⟨hv, h1, h2, h3, h4, h5, h6, hs, -, -, -⟩ := fromTimespec_fields t ns c h
+  unfold Spec.seconds at hs
+  have hdn : Spec.dayNumber c.year c.month c.monthDay = t / 86400 := by omega
+  unfold weekDay Spec.weekdayOfDay
+  rw [daysSinceUnixEpoch_eq' _ _ _ ⟨hv.1, hv.2.1⟩, hdn, c_dpw]
+  omega
 
 theorem fromTimespec_yearDay (t ns : Int) (c : UtcDateTime) (h : UtcDateTime.fromTimespec t ns = .ok c) :
     yearDay c.year c.month c.monthDay = t / 86400 - Spec.daysBeforeYear c.year ∧
     0 ≤ yearDay c.year c.month c.monthDay ∧ yearDay c.year c.month c.monthDay < Spec.yearLen c.year := by
-  sorry
+  obtain ⟨hv, h1, h2, h3, h4, h5, h6, hs, -, -, -⟩ := fromTimespec_fields t ns c h
+  unfold Spec.seconds at hs
+  have hdn : Spec.dayNumber c.year c.month c.monthDay = t / 86400 := by omega
+  have hb := dayInYear_bounds _ _ _ hv
+  have hyd : yearDay c.year c.month c.monthDay =
+      Spec.daysBeforeMonth c.year c.month + (c.monthDay - 1) := by
+    unfold yearDay
+    rw [tbl_cumul _ ⟨hv.1, hv.2.1⟩, isLeapYear_eq, daysBeforeMonth_eq]
+    simp only [ge_iff_le, Bool.and_eq_true, decide_eq_true_eq]
+    omega
+  rw [hyd]
+  unfold Spec.dayNumber at hdn
+  omega
 
 theorem utcNew_eq_expected (y mo d h mi s ns : Int) :
     UtcDateTime.new y mo d h mi s ns =
@@ -65,23 +106,86 @@ theorem utcNew_eq_expected (y mo d h mi s ns : Int) :
        else if ns ≥ 1000000000 then .error (.dateTime .invalidNanoseconds)
        else if d > Spec.monthLen y mo then .error (.dateTime .invalidMonthDay)
        else .ok { year := y, month := mo, monthDay := d, hour := h, minute := mi, second := s, nanoseconds := ns }) := by
-  sorry
+  unfold UtcDateTime.new
+  rw [checkInputs_eq]
+  by_cases h0 : y = i32Max ∧ mo = 12 ∧ d = 31 ∧ h = 23 ∧ mi = 59 ∧ s = 60
+  · simp only [h0, and_self, if_true]
+  rw [if_neg h0, if_neg h0]
+  by_cases h1 : ¬ (1 ≤ mo ∧ mo ≤ 12)
+  · rw [if_pos h1, if_pos h1]
+  rw [if_neg h1, if_neg h1]
+  by_cases h2 : ¬ (1 ≤ d ∧ d ≤ 31)
+  · rw [if_pos h2, if_pos h2]
+  rw [if_neg h2, if_neg h2]
+  by_cases h3 : h > 23
+  · rw [if_pos h3, if_pos h3]
+  rw [if_neg h3, if_neg h3]
+  by_cases h4 : mi > 59
+  · rw [if_pos h4, if_pos h4]
+  rw [if_neg h4, if_neg h4]
+  by_cases h5 : s > 60
+  · rw [if_pos h5, if_pos h5]
+  rw [if_neg h5, if_neg h5]
+  by_cases h6 : ns ≥ 1000000000
+  · rw [if_pos h6, if_pos h6]
+  rw [if_neg h6, if_neg h6]
+  by_cases h7 : d > Spec.monthLen y mo
+  · rw [if_pos h7, if_pos h7]
+  rw [if_neg h7, if_neg h7]
 
 theorem utcNew_accepts_iff (y mo d h mi s ns : Int) (hh : 0 ≤ h) (hmi : 0 ≤ mi) (hs : 0 ≤ s) :
     (∃ c, UtcDateTime.new y mo d h mi s ns = .ok c) ↔
       (Spec.ValidDate y mo d ∧ Spec.ValidTime h mi s ∧ ns < 1000000000 ∧
        ¬ (y = i32Max ∧ mo = 12 ∧ d = 31 ∧ h = 23 ∧ mi = 59 ∧ s = 60)) := by
-  sorry
+  rw [utcNew_eq_expected]
+  unfold Spec.ValidDate Spec.ValidTime
+  have := monthLen_le y mo
+  constructor
+  · rintro ⟨c, hc⟩
+    repeat' split at hc
+    all_goals try contradiction
+    refine ⟨by omega, by omega, by omega, by assumption⟩
+  · rintro ⟨h1, h2, h3, h4⟩
+    rw [if_neg h4, if_neg (by omega), if_neg (by omega), if_neg (by omega), if_neg (by omega),
+      if_neg (by omega), if_neg (by omega), if_neg (by omega)]
+    exact ⟨_, rfl⟩
 
 theorem fromTimespec_unixTime (y m d h mi s ns : Int) (hy : i32Min ≤ y ∧ y ≤ i32Max)
     (hd : Spec.ValidDate y m d) (ht : 0 ≤ h ∧ h ≤ 23 ∧ 0 ≤ mi ∧ mi ≤ 59 ∧ 0 ≤ s ∧ s ≤ 59) :
     UtcDateTime.fromTimespec (unixTime y m d h mi s) ns =
       .ok { year := y, month := m, monthDay := d, hour := h, minute := mi, second := s, nanoseconds := ns } := by
-  sorry
+  obtain ⟨hv1, hv2, hv3, hv4⟩ := hd
+  rw [unixTime_eq_seconds' y m d h mi s ⟨hv1, hv2⟩]
+  have hd : Spec.ValidDate y m d := ⟨hv1, hv2, hv3, hv4⟩
+  rcases fromTimespec_cases (Spec.seconds y m d h mi s) ns with
+    ⟨_, _, y', m', d', hv', hdn, _, _, heq⟩ | ⟨hn, _⟩
+  · rw [heq]
+    have hsec : Spec.seconds y' m' d' ((Spec.seconds y m d h mi s % 86400) / 3600)
+        (((Spec.seconds y m d h mi s % 86400) / 60) % 60) ((Spec.seconds y m d h mi s % 86400) % 60)
+        = Spec.seconds y m d h mi s := by
+      generalize Spec.seconds y m d h mi s = T at hdn ⊢
+      unfold Spec.seconds
+      rw [hdn]; omega
+    obtain ⟨e1, e2, e3, e4, e5, e6⟩ := seconds_injective _ _ _ _ _ _ _ _ _ _ _ _ hv' hd
+      (by omega) ht hsec
+    rw [e1, e2, e3, e4, e5, e6]
+  · exfalso
+    apply hn
+    have a := (year_le_iff y m d i32Min hd).1
+    have b := (year_le_iff y m d i32Max hd).2
+    rw [dby_min] at a
+    rw [dby_max] at b
+    have a' := a.mp hy.1
+    have b' := b.mp hy.2
+    rw [c_min, c_max]
+    unfold Spec.seconds
+    omega
 
 theorem unixTime_fromTimespec (t ns : Int) (c : UtcDateTime) (h : UtcDateTime.fromTimespec t ns = .ok c) :
     c.unixTime = t := by
-  sorry
+  obtain ⟨hv, -, -, -, -, -, -, hs, -, -, -⟩ := fromTimespec_fields t ns c h
+  unfold UtcDateTime.unixTime
+  rw [unixTime_eq_seconds' _ _ _ _ _ _ ⟨hv.1, hv.2.1⟩, hs]
 
 theorem unixTime_lex_iff (y m d h mi s y' m' d' h' mi' s' : Int)
     (hd : Spec.ValidDate y m d) (hd' : Spec.ValidDate y' m' d')
@@ -89,6 +193,29 @@ theorem unixTime_lex_iff (y m d h mi s y' m' d' h' mi' s' : Int)
     (ht' : 0 ≤ h' ∧ h' ≤ 23 ∧ 0 ≤ mi' ∧ mi' ≤ 59 ∧ 0 ≤ s' ∧ s' ≤ 59) :
     Spec.lexLt [y, m, d, h, mi, s] [y', m', d', h', mi', s'] ↔
       unixTime y m d h mi s < unixTime y' m' d' h' mi' s' := by
-  sorry
+  rw [unixTime_eq_seconds' y m d h mi s ⟨hd.1, hd.2.1⟩, unixTime_eq_seconds' y' m' d' h' mi' s' ⟨hd'.1, hd'.2.1⟩]
+  unfold Spec.seconds
+  simp only [Spec.lexLt, or_false, and_false]
+  constructor
+  · intro hl
+    by_cases hdate : y < y' ∨ (y = y' ∧ (m < m' ∨ (m = m' ∧ d < d')))
+    · have := dayNumber_lt_of_lex y m d y' m' d' hd hd' hdate
+      omega
+    · have e1 : y = y' := by omega
+      have e2 : m = m' := by omega
+      have e3 : d = d' := by omega
+      subst e1 e2 e3
+      omega
+  · intro hl
+    by_cases hdate : y < y' ∨ (y = y' ∧ (m < m' ∨ (m = m' ∧ d < d')))
+    · omega
+    · by_cases hdate' : y' < y ∨ (y' = y ∧ (m' < m ∨ (m' = m ∧ d' < d)))
+      · have := dayNumber_lt_of_lex y' m' d' y m d hd' hd hdate'
+        omega
+      · have e1 : y = y' := by omega
+        have e2 : m = m' := by omega
+        have e3 : d = d' := by omega
+        subst e1 e2 e3
+        omega
 
 end TzVerif.Proofs
